@@ -19,12 +19,16 @@ model_output = wire.model_output
 def stat_key(c, ob):
     if c['kind'] == 'arrval':
         return 'arrval/%s/%s' % (c['field'], 'ok' if 'ok' in ob else 'raised')
+    if c['kind'] == 'sharedsch':
+        return 'sharedsch/%s' % c['first']
     return wire.stat_key(c, ob)
 
 
 def nontrivial(c, ob):
     if c['kind'] == 'arrval':
         return c['a'] != c['b']
+    if c['kind'] == 'sharedsch':
+        return True
     return wire.nontrivial(c, ob)
 
 
@@ -93,7 +97,11 @@ def generate(seed, tier, enlarged=False):
         else:
             b = {'shape': list(a['shape']), 'fill': a['fill'] + 1}
         arr.append({'kind': 'arrval', 'a': a, 'b': b, 'field': rng.choice(['_value', '_value', '_default'])})
-    return cases + extra + arr
+    # two instances of a class whose ports_schema() returns ONE shared dictionary, one of them carrying a `_schema`
+    # override of the default: the other must be built with the declared default (oracle only)
+    shared = [{'kind': 'sharedsch', 'declared': rng.randint(0, 4), 'override': rng.randint(5, 9),
+               'first': rng.choice(['overridden', 'plain']), 'again': rng.random() < 0.5} for _ in range(max(4, n // 60))]
+    return cases + extra + arr + shared
 
 
 def run_arrval(c):
@@ -111,6 +119,49 @@ def run_arrval(c):
         return {'ok': 1, 'arr': [list(np.shape(v)), np.asarray(v).tolist()]}
     except Exception as e:
         return {'err': type(e).__name__ + ':' + str(e)[:160]}
+
+
+def run_sharedsch(c):
+    from vivarium.core.process import Process
+    from vivarium.core.store import generate_state
+    SCHEMA = {'tank': {'level': {'_default': c['declared'], '_updater': 'set'}}}
+    pristine = copy.deepcopy(SCHEMA)
+
+    class Tank(Process):
+        def ports_schema(self):
+            return SCHEMA                      # one object for every instance and every call
+
+        def next_update(self, timestep, states):
+            return {}
+    items = [('tank_a', Tank({'_schema': {'tank': {'level': {'_default': c['override']}}}})), ('tank_b', Tank())]
+    if c['first'] == 'plain':
+        items.reverse()
+    try:
+        store = generate_state(dict(items), {'tank_a': {'tank': ('a',)}, 'tank_b': {'tank': ('b',)}}, {})
+        out = {'ok': 1, 'a': store.get_path(('a', 'level')).get_value(), 'b': store.get_path(('b', 'level')).get_value()}
+        if c['again']:
+            # a later store with a plain instance only
+            st2 = generate_state({'tank_c': Tank()}, {'tank_c': {'tank': ('c',)}}, {})
+            out['c'] = st2.get_path(('c', 'level')).get_value()
+        out['schema_kept'] = SCHEMA == pristine
+        return out
+    except Exception as e:
+        return {'err': type(e).__name__ + ':' + str(e)[:160]}
+
+
+def oracle_sharedsch(c, ob):
+    if 'ok' not in ob:
+        return [('construction raised: %s' % ob.get('err'), 'construction-raised')]
+    want = {'a': c['override'], 'b': c['declared']}
+    if c['again']:
+        want['c'] = c['declared']
+    got = {k: ob.get(k) for k in want}
+    if got != want or not ob['schema_kept']:
+        return [('instances sharing one schema dictionary, one with a `_schema` override of the default (%r instead of '
+                 '%r): the variables are built as %r, expected %r%s' % (c['override'], c['declared'], got, want,
+                                                                       '' if ob['schema_kept'] else '; the shared schema was rewritten'),
+                 'default-from-another-process')]
+    return []
 
 
 def oracle_arrval(c, ob):
@@ -232,6 +283,8 @@ def run_composite(c):
 def run_impl(c):
     if c['kind'] == 'arrval':
         return run_arrval(c)
+    if c['kind'] == 'sharedsch':
+        return run_sharedsch(c)
     ob = wire.run_impl(dict(c, kind='gen') if c['kind'] == 'comp' else c)
     if c['kind'] == 'comp' and 'ok' in ob:
         try:
@@ -242,7 +295,7 @@ def run_impl(c):
 
 
 def render(c, ob):
-    if c['kind'] == 'arrval':
+    if c['kind'] in ('arrval', 'sharedsch'):
         return None                           # oracle only
     if c['kind'] == 'comp':
         return render_composite(c, ob)        # None (not sent to Coq) when generate_state itself rejects the composite
@@ -333,6 +386,8 @@ def oracle(c, ob, rng):
     msgs = []
     if c['kind'] == 'arrval':
         return oracle_arrval(c, ob)
+    if c['kind'] == 'sharedsch':
+        return oracle_sharedsch(c, ob)
     if c.get('malformed'):
         if 'ok' in ob:
             msgs.append(('incompatible _value/_units declarations for one node were accepted silently', 'conflict-accepted'))
